@@ -138,3 +138,39 @@ func c07PartialsRegisteredAgain(res *Result) {
 		}
 	}
 }
+
+// c07AfterRescues: e / escape behind a filter that stands in for a value that is not there (default after an index
+// out of range, a missing key, an undefined name, a null attribute): if the render gives output at all, the escape
+// has been applied to whatever default handed on.
+func c07AfterRescues(res *Result) {
+	bases := []string{"xs[9]", "xs[2]", "ts[5]", "mp.nokey", "mp['nokey']", "undefinedname", "mp.nul", "nested.rows[4]", "nested.rows[0][7]", "xs[0]", "st.Nope", "xs|first", "empty|first", "attribute(mp, 'nokey')"}
+	chains := []string{"|default(v)|e", "|default(v)|escape", "|default(v)|e|trim", "|default(v)|trim|escape", "|default(v)|raw|e", "|default(v, 'x')|e"}
+	forms := []func(expr string) string{
+		func(x string) string { return "{{ " + x + " }}" }, func(x string) string { return "{% set w = " + x + " %}{{ w }}" }, func(x string) string { return "{% macro m(a) %}{{ a }}{% endmacro %}{{ m(" + x + ") }}" },
+		func(x string) string { return "{% for i in [1] %}{{ " + x + " }}{% endfor %}" },
+	}
+	const in = `<i class="none">n/a</i> & 'more'`
+	e := twig.New()
+	for _, b := range bases {
+		for _, ch := range chains {
+			for fi, form := range forms {
+				src := form(b + ch)
+				if e.RegisterString("t", src) != nil {
+					continue
+				}
+				res.Hist["stream:after-rescues"]++
+				res.Evaluations++
+				out, err := e.Render("t", map[string]interface{}{"v": in, "xs": []interface{}{nil, "", "x"}, "ts": []string{"a"}, "mp": map[string]interface{}{"nul": nil}, "empty": []interface{}{},
+					"nested": map[string]interface{}{"rows": []interface{}{[]interface{}{1}}}, "st": struct{ Name string }{"n"}})
+				if err != nil {
+					continue // a refused index is not an escaping matter
+				}
+				if i := strings.IndexAny(out, "<>\"'"); i >= 0 {
+					res.add(Finding{Kind: "oracle", Where: "after-rescues", Case: Case{"stream": "after-rescues", "tpl": src, "form": fi}, Expected: "no raw < > \" ' in the output", Observed: out,
+						Detail: "the chain ends in e / escape; the value default handed on was printed without it"})
+					return
+				}
+			}
+		}
+	}
+}
